@@ -49,6 +49,21 @@ def lookupByName (shape : List (ν × Nat)) (data : List α) (names : List ν) (
 def ValidShape (shape : List (ν × Nat)) : Prop :=
   (shape.map (·.1)).Nodup ∧ ∀ d ∈ shape, 1 ≤ d.2
 
+/-- What the constructors must accept: element count = product of the lengths, unique names,
+    every length ≥ 1 (decidable, so the driver can evaluate it). -/
+def Accepts (shape : List (ν × Nat)) (dataLen : Nat) : Prop :=
+  dataLen = EasyMl.prod (shape.map (·.2)) ∧ (shape.map (·.1)).Nodup ∧ ∀ d ∈ shape, 1 ≤ d.2
+
+instance (shape : List (ν × Nat)) (dataLen : Nat) : Decidable (Accepts shape dataLen) := by
+  unfold Accepts; infer_instance
+
+/-- A name list by which a tensor of this shape may be addressed: a permutation of its names. -/
+def IsOrdering (shape : List (ν × Nat)) (names : List ν) : Prop :=
+  names.Perm (shape.map (·.1))
+
+instance (shape : List (ν × Nat)) (names : List ν) : Decidable (IsOrdering shape names) := by
+  unfold IsOrdering; infer_instance
+
 /-- The shape reported for an ordering: each requested name with its length in the source. -/
 def shapeFor (shape : List (ν × Nat)) (names : List ν) : List (ν × Nat) :=
   names.map fun n => (n, ((shape.find? (·.1 = n)).map (·.2)).getD 0)
